@@ -158,7 +158,43 @@ def runPk (secret : List UInt8) (magic : Nat) (ini : Bool) (pkts : List (List Na
   pure (String.intercalate " " (("st=" ++ toString rd.l.ctr ++ "," ++ toString rd.p.ctr ++ "," ++
     toString sd.p.ctr ++ "," ++ toString (decide (rd = sd))) :: out).reverse)
 
+/-- one cipher pair of the concurrent-schedule op, mode `skip`: start in epoch `epoch`; each round
+fast-forwards to the last two packets of the current epoch and encrypts two packets (the second one
+crosses the rekey boundary). Answer: digest of all ciphertexts, final key, final counter. -/
+def concSkip (key : List UInt8) (epoch rounds seed : Nat) : String :=
+  let step := fun (acc : FSP × List (List UInt8)) (i : Nat) =>
+    let s : FSP := ⟨acc.1.key, acc.1.ctr + 222⟩
+    let (c1, s1) := fspEncrypt CP s [] (fill (seed + 2 * i) (1 + (seed + i) % 40))
+    let (c2, s2) := fspEncrypt CP s1 [] (fill (seed + 2 * i + 1) (1 + (seed + 3 * i) % 40))
+    (s2, c2 :: c1 :: acc.2)
+  let r := (List.range rounds).foldl step ((⟨key, epoch * 224⟩ : FSP), [])
+  digest r.2.reverse.flatten ++ "," ++ listToHex r.1.key ++ "," ++ toString r.1.ctr
+
+/-- mode `peer`: one direction of a session keyed from `secret`: `warm` + `n` packets through
+V2EncPacket / V2ReceivePacket; answer: digest of the wire, receiver = sender state flag, counter -/
+def concPeer (secret : List UInt8) (ini : Bool) (warm n seed : Nat) : String :=
+  let k := schedule hkdfSha256 secret 0xd9b4bef9
+  let step := fun (acc : Dir × List (List UInt8)) (i : Nat) =>
+    match sendPacket CP acc.1 (fill (seed + i) (1 + (seed + 7 * i) % 40)) [] (i % 5 == 4 && i + 1 < warm + n) with
+    | some (b, d') => (d', b :: acc.2)
+    | none => acc
+  let r := (List.range (warm + n)).foldl step ((mkSession k ini).send, [])
+  digest r.2.reverse.flatten ++ "," ++ listToHex r.1.p.key ++ "," ++ toString r.1.p.ctr
+
 def handle : List String → String
+  | ["conc", mode, sessions] =>
+    let one := fun (t : String) =>
+      match mode, t.splitOn ":" with
+      | "skip", [key, epoch, rounds, seed] => do
+        let key ← hexToList? key; let epoch ← epoch.toNat?; let rounds ← rounds.toNat?; let seed ← seed.toNat?
+        pure (concSkip key epoch rounds seed)
+      | "peer", [secret, ini, warm, n, seed] => do
+        let secret ← hexToList? secret; let warm ← warm.toNat?; let n ← n.toNat?; let seed ← seed.toNat?
+        pure (concPeer secret (ini == "1") warm n seed)
+      | _, _ => none
+    match (sessions.splitOn ";").mapM one with
+    | some rs => String.intercalate "|" rs
+    | none => "bad-op"
   | ["pk", secret, magic, ini, pkts, tam, recvs] =>
     match hexToList? secret, hexToNat? magic,
       (if pkts == "-" then some [] else (pkts.splitOn ";").mapM (parseNats? · ":")),
